@@ -33,7 +33,6 @@ func (ctx *parseContext) expandImports(node Node, expansionDepth int) (Node, err
 	}
 
 	newChildrens := make([]Node, 0, len(node.Children))
-	containsImports := false
 	for _, child := range node.Children {
 		child, err := ctx.expandImports(child, expansionDepth+1)
 		if err != nil {
@@ -52,7 +51,6 @@ func (ctx *parseContext) expandImports(node Node, expansionDepth int) (Node, err
 				return node, NodeErr(child, "hit import expansion limit")
 			}
 
-			containsImports = true
 			if len(child.Args) != 1 {
 				return node, ctx.Err("import directive requires exactly 1 argument")
 			}
@@ -62,20 +60,40 @@ func (ctx *parseContext) expandImports(node Node, expansionDepth int) (Node, err
 				return node, err
 			}
 
-			newChildrens = append(newChildrens, subtree...)
+			// Every import makes one more copy of the arguments in the
+			// snippet, results of macro expansion included.
+			*ctx.macroBudget -= treeSize(subtree)
+			if *ctx.macroBudget < 0 {
+				return node, NodeErr(child, "import expansion results are too big")
+			}
+
+			// Expand any imports added by the snippet right here, another
+			// pass over the whole block would copy everything expanded so
+			// far once per level of a chain of snippets.
+			expanded, err := ctx.expandImports(Node{Children: subtree}, expansionDepth+1)
+			if err != nil {
+				return node, err
+			}
+
+			newChildrens = append(newChildrens, expanded.Children...)
 		} else {
 			newChildrens = append(newChildrens, child)
 		}
 	}
 	node.Children = newChildrens
 
-	// We need to do another pass to expand any imports added by snippets we
-	// just expanded.
-	if containsImports {
-		return ctx.expandImports(node, expansionDepth+1)
-	}
-
 	return node, nil
+}
+
+// treeSize estimates the memory taken by a copy of nodes, the same way the
+// budget for macro expansion does: a string header per argument.
+func treeSize(nodes []Node) int {
+	size := 0
+	for _, node := range nodes {
+		size += 16 * (1 + len(node.Args))
+		size += treeSize(node.Children)
+	}
+	return size
 }
 
 func (ctx *parseContext) resolveImport(node Node, name string, expansionDepth int) ([]Node, error) {
